@@ -234,9 +234,22 @@ impl Drop for ExecutorInner {
 
                 // Some of the dropped tasks may have scheduled other tasks that
                 // were not yet cancelled, preventing them from being dropped
-                // upon cancellation. This is OK: the scheduled tasks will be
-                // dropped when the work queue is dropped, and they cannot
-                // re-schedule one another since all tasks were cancelled.
+                // upon cancellation. This is OK: the scheduled tasks are dropped
+                // with the work queue below, and they cannot re-schedule one
+                // another since all tasks were cancelled.
+                drop(tasks);
+
+                // Drop the scheduled tasks now, while `ACTIVE_TASKS` is still
+                // unset: if this executor is dropped from within a task of
+                // another executor, their futures would otherwise remove the
+                // cancel tokens of that other executor's tasks.
+                loop {
+                    let queue = std::mem::take(&mut *self.context.queue.borrow_mut());
+                    if queue.is_empty() {
+                        break;
+                    }
+                    drop(queue);
+                }
             });
         });
     }
